@@ -419,20 +419,6 @@ Proof.
     destruct (step_session _ _ _ _ _ _) as [[w r] p2]. unfold outs, reqs. cbn. eexists; reflexivity.
 Qed.
 
-Lemma other_reply_discards cfg c p f s sn :
-  f_sm f = true -> has_id p = true ->
-  (forall rest, s <> SResumed (p_sm_id p) :: rest) -> (forall s1, s <> SFailed :: s1) ->
-  exists w cp, step_resume cfg c p f s sn = (w, Err false false, clear_sm p) /\ cp = clear_sm p /\ p_sm_id cp = [].
-Proof.
-  intros Hf Hi Hr Hfl. unfold step_resume, has_id in *. rewrite Hf, Hi. cbn [andb].
-  destruct s as [|i s']; [eexists; eexists; split; [reflexivity|split; reflexivity]|].
-  destruct i; try (eexists; eexists; split; [reflexivity|split; reflexivity]).
-  - destruct (str_eqb previd (p_sm_id p)) eqn:E.
-    + apply str_eqb_eq in E. subst. exfalso. eapply Hr. reflexivity.
-    + eexists; eexists; split; [reflexivity|split; reflexivity].
-  - exfalso. eapply Hfl. reflexivity.
-Qed.
-
 (* whatever happens in a connection, the stored id afterwards is the old one, empty,
    or one the server handed out in an <enabled/> of this connection *)
 Lemma enable_sm_id cfg c p f s sn :
